@@ -40,7 +40,7 @@ from typing import *
 class Pos(int, utype.Rule):
     gt = 0
 
-{deco}class M({base}):
+{deco}class {cname}({base}):
 {options}    req: int
     opt: int = utype.Field(required=False)
     pos: Pos = 1
@@ -55,6 +55,16 @@ class Pos(int, utype.Rule):
     @utype.Field(dependencies=['req'])
     def double(self) -> int:
         return self.req * 2
+
+    @property
+    @utype.Field(dependencies=['hidden'])
+    def hsum(self) -> int:
+        return self.hidden + 100
+{sub}'''
+SUB = '''
+
+class M(Base):
+{options}    req: Pos      # re-annotated, annotation only: still required, now with the stricter type
 '''
 FIELDS = {   # attname -> (output name, kind)
     "req": ("req", "int"), "opt": ("opt", "int"), "pos": ("pos", "pos"), "name": ("Name", "name"), "imm": ("imm", "int"), "ci": ("ci", "int"),
@@ -62,7 +72,7 @@ FIELDS = {   # attname -> (output name, kind)
 }
 KEYS = {  # accepted spellings -> attname
     "req": "req", "opt": "opt", "pos": "pos", "name": "name", "Name": "name", "imm": "imm", "ci": "ci", "CI": "ci", "Ci": "ci", "CiAlt": "ci", "cialt": "ci",
-    "hidden": "hidden", "ex": "ex", "tags": "tags", "double": "double",
+    "hidden": "hidden", "ex": "ex", "tags": "tags", "double": "double", "hsum": "double",
 }
 UNKNOWN = ["zz", "x1"]
 _n = [0]
@@ -104,17 +114,21 @@ def _types():
         _TAGS[0] = Rule.parse_annotation(typing.List[Pos])
 
 
-def declare(base, options):
+def declare(base, options, inherit=False):
     _types()
     _n[0] += 1
     name = f"vf_c07_m{_n[0]}"
     mod = types.ModuleType(name)
     sys.modules[name] = mod
     o = ", ".join(f"{k}={'int' if v == 'int' else repr(v)}" for k, v in sorted((options or {}).items()))
+    opt_line = f"    __options__ = utype.Options({o})\n" if o else ""
     if base == "deco":
-        src = SRC.format(deco=f"@utype.dataclass(set_class_properties=True{', options=utype.Options(' + o + ')' if o else ''})\n", base="object", options="")
+        src = SRC.format(deco=f"@utype.dataclass(set_class_properties=True{', options=utype.Options(' + o + ')' if o else ''})\n", base="object", options="", cname="M", sub="")
+    elif inherit:
+        # the fields live in a base class; the subclass brings the options and re-annotates one field
+        src = SRC.format(deco="", base=f"utype.{base}", options="", cname="Base", sub=SUB.format(options=opt_line))
     else:
-        src = SRC.format(deco="", base=f"utype.{base}", options=f"    __options__ = utype.Options({o})\n" if o else "")
+        src = SRC.format(deco="", base=f"utype.{base}", options=opt_line, cname="M", sub="")
     exec(compile(src, name, "exec"), mod.__dict__)
     return mod, mod.M
 
@@ -133,7 +147,7 @@ def view(inst, is_schema):
     return {"keys": keys, "attrs": attrs}
 
 
-def check_invariants(inst, is_schema, options, initial_imm, step):
+def check_invariants(inst, is_schema, options, initial_imm, step, inherit=False):
     """-> list of (sig, detail)"""
     fails = []
     addition = (options or {}).get("addition")
@@ -149,6 +163,8 @@ def check_invariants(inst, is_schema, options, initial_imm, step):
             holders.append(("key", dict.__getitem__(inst, out)))
         if att in vars(inst):
             holders.append(("attr", vars(inst)[att]))
+        if inherit and att == "req":
+            kind = "pos"
         for where, v in holders:
             if unprov is not None and v is unprov:
                 fails.append((f"sentinel-stored/{att}", {"where": where}))
@@ -157,7 +173,7 @@ def check_invariants(inst, is_schema, options, initial_imm, step):
     # unknown keys
     if is_schema:
         for k, v in dict.items(inst):
-            if k not in [o for o, _ in FIELDS.values()] and k != "double":
+            if k not in [o for o, _ in FIELDS.values()] and k not in ("double", "hsum"):
                 if addition is None or addition is False:
                     fails.append((f"unknown-key-stored-although-addition-is-off/{step}", {"key": k}))
                 elif addition == "int" and type(v) is not int:
@@ -206,6 +222,19 @@ def check_invariants(inst, is_schema, options, initial_imm, step):
             fails.append((f"dependent-property-stale/attribute/{step}", {"req": req, "double": codec.encode(d)}))
         if is_schema and dict.__contains__(inst, "double") and dict.__getitem__(inst, "double") != req * 2:
             fails.append((f"dependent-property-stale/key/{step}", {"req": req, "double": codec.encode(dict.__getitem__(inst, 'double'))}))
+    try:
+        hid = getattr(inst, "hidden")
+    except AttributeError:
+        hid = None
+    if type(hid) is int:
+        try:
+            h = getattr(inst, "hsum")
+        except Exception as e:
+            h = ("raised", type(e).__name__)
+        if h != hid + 100:
+            fails.append((f"dependent-property-stale/of-no_output-field/attribute/{step}", {"hidden": hid, "hsum": codec.encode(h)}))
+        if is_schema and dict.__contains__(inst, "hsum") and dict.__getitem__(inst, "hsum") != hid + 100:
+            fails.append((f"dependent-property-stale/of-no_output-field/key/{step}", {"hidden": hid, "hsum": codec.encode(dict.__getitem__(inst, 'hsum'))}))
     return fails
 
 
@@ -245,7 +274,7 @@ def apply_op(inst, op, is_schema):
         raise HarnessError(f"bad op {k}")
 
 
-def predict(op, inst, is_schema, options):
+def predict(op, inst, is_schema, options, inherit=False):
     """'refuse' | 'accept' | None (no documented prediction) for single-key operations"""
     k, name = op["op"], op.get("key")
     imm_all = bool((options or {}).get("immutable"))
@@ -258,7 +287,7 @@ def predict(op, inst, is_schema, options):
         if imm_all or att == "imm":
             return "refuse"
         v = codec.decode(op["value"])
-        ok = valid_for(FIELDS[att][1], v)
+        ok = valid_for("pos" if (inherit and att == "req") else FIELDS[att][1], v)
         if att == "ex":
             return "accept"        # on_error='exclude': an invalid value is ignored without an error
         return "accept" if ok else "refuse"
@@ -292,7 +321,8 @@ def run_case(case):
         if key not in ("addition", "ignore_delete_nonexistent", "immutable"):
             raise HarnessError("bad option")
     is_schema = base == "Schema"
-    mod, M = declare(base, options)
+    inherit = bool(case.get("inherit")) and base != "deco"
+    mod, M = declare(base, options, inherit)
     try:
         data = {k: codec.decode(v) for k, v in init}
         made = oracle.outcome(lambda: M(**data))
@@ -300,7 +330,7 @@ def run_case(case):
             return {"status": "init-rejected", "fails": [], "applied": 0}
         inst = made[1]
         initial_imm = dict.get(inst, "imm") if is_schema else vars(inst).get("imm")
-        fails = check_invariants(inst, is_schema, options, initial_imm, "after-init")
+        fails = check_invariants(inst, is_schema, options, initial_imm, "after-init", inherit)
         applied, refused, interesting = 0, 0, False
         deleted = False
         target = inst
@@ -319,7 +349,7 @@ def run_case(case):
             if not is_schema and k not in ("setattr", "delattr"):
                 continue
             before = view(target, is_schema)
-            want = predict(op, target, is_schema, options) if k in SINGLE else None
+            want = predict(op, target, is_schema, options, inherit) if k in SINGLE else None
             out = oracle.outcome(apply_op, target, op, is_schema)
             step = k
             if out[0] == "hang":
@@ -347,7 +377,7 @@ def run_case(case):
                     interesting = True
                 if k in ("setdefault", "popitem", "ior", "clear"):
                     interesting = True
-            fails += check_invariants(target, is_schema, options, initial_imm, step)
+            fails += check_invariants(target, is_schema, options, initial_imm, step, inherit)
             if original_view is not None and view(inst, is_schema) != original_view:
                 fails.append((f"original-changed-through-its-copy/{k}", {"op": op, "before": original_view, "after": view(inst, is_schema)}))
         nt = (applied >= 3 and interesting) or refused > 0
@@ -417,7 +447,10 @@ def cases(draw):
     if options.get("addition") and draw(st.booleans()):
         init.append(["zz", draw(st.sampled_from([1, "7"]))])
     ops = draw(st.lists(op_specs(base == "Schema"), min_size=1, max_size=12))
-    return {"base": base, "options": options, "init": init, "ops": ops}
+    case = {"base": base, "options": options, "init": init, "ops": ops}
+    if base != "deco" and draw(st.sampled_from([False, False, True])):
+        case["inherit"] = True
+    return case
 
 
 def campaign(ctx):
